@@ -51,11 +51,23 @@ def has_positional_call(text):
     return False
 
 
+def _ddict_factories(d):
+    return [x[1] for x in gv.walk(d) if x[0] == "ddict"]
+
+
 def signature(case):
     sigs = set()
     for s in case["prog"]["sites"]:
         if s.get("prev") and has_positional_call(s["prev"]):
             sigs.add("positional-call-args")
+        pd = s.get("prev_desc")
+        if pd is not None:
+            new_f = []
+            for e in s["events"]:
+                new_f += _ddict_factories(e[2] if s["op"] == "getitem" else e)
+            old_f = _ddict_factories(pd)
+            if old_f and new_f and set(old_f) != set(new_f):
+                sigs.add("defaultdict-factory-differs")
     return sigs
 
 
